@@ -66,6 +66,12 @@ def allowList : List Allow := [
     why := "stat () only, of the file names in the line-number table of an ALREADY LOADED inherited program: its " ++
            "source (passed legal_path in load_object) and the files it #included (opened by inc_open, theorem " ++
            "include_path_confined) — every one of them was opened by the confined loader before" },
+  { file := "lib/lpc/program/binaries.c", fn := "inherited_program_outdated", callee := "check_times",
+    root := "prog->strings[id - 1]",
+    why := "stat () only (save_binary's test for parents that changed since they were loaded, C17 fix 3b97c96): the " ++
+           "file names in the line-number table of an inherited program that is the CURRENT program of a loaded " ++
+           "object (`ob->prog == prog` is tested first): its source passed legal_path in load_object, its include " ++
+           "files were opened by inc_open (include_path_confined) - the same names as in inherited_program_newer" },
   { file := "lib/lpc/program/binaries.c", fn := "inherited_program_newer", callee := "check_times",
     root := "prog->name",
     why := "stat () only, of SaveBinaryDir (configuration) + \"/\" + name of an already loaded inherited program " ++
